@@ -163,7 +163,7 @@ func (p *sparser) opAt() (string, int) {
 	}
 	adj := func(a, b stok) bool { return a.end == b.pos }
 	switch {
-	case t.tok == token.LEQ && t1.tok == token.EQL && t2.tok == token.GTR && adj(t, t1) && adj(t1, t2):
+	case t.tok == token.LEQ && t1.tok == token.ASSIGN && t2.tok == token.GTR && adj(t, t1) && adj(t1, t2):
 		return "<==>", 3
 	case t.tok == token.LSS && t1.tok == token.EQL && t2.tok == token.GTR && adj(t, t1) && adj(t1, t2):
 		return "<==>", 3
